@@ -236,6 +236,11 @@ func (s *Set) registerFlags(tmpl reflect.Value, ptyp reflect.Type) error {
 		}
 
 		name := s.mkname(sf)
+		if other, dup := s.flagFieldName[name]; dup && name != "-" {
+			// two leaves with one flag name: the second flag would not be
+			// registered and the first flag's value written into the second field
+			return fmt.Errorf("fields %s and %s map to the same flag name %q", other, sf.Name, name)
+		}
 		s.flagFieldName[name] = sf.Name
 
 		// if the flag already exists, don't register so the user can override
